@@ -4,8 +4,11 @@
 #![allow(dead_code, unused_imports, missing_docs, clippy::all)]
 
 pub mod spec;
+pub mod contracts;
+pub mod oracle;
 pub mod arb;
 pub mod util;
+pub mod scratch;
 
 pub mod h_varint;
 pub mod h_ids;
@@ -17,5 +20,15 @@ pub mod h_ids;
 mod playback {
     use super::h_ids::*;
     use super::h_varint::*;
+    use crate::frame::verif_kani::*;
+    use crate::qpack::verif_kani::*;
+    use crate::stream_header::verif_kani::*;
+    use crate::stream::verif_kani::*;
+    use crate::settings::verif_kani::*;
+    use crate::capsule::verif_kani::*;
+    use crate::datagram::verif_kani::*;
+    use crate::headers::verif_kani::*;
+    use crate::session::verif_kani::*;
+    use crate::bytes::r#async::verif_kani::*;
     include!("/verif/.build/playback/current.rs");
 }
